@@ -34,6 +34,7 @@ def run(ctx):
     r63(ctx, api)
     r64(ctx, api)
     r65(ctx, api)
+    r66(ctx, api)
     from . import callsigs as _cs
     _cs.general_rules(ctx, 'R6', ['api.ParquetFile', 'api._pre_allocate', 'core.read_row_group', 'core.read_row_group_arrays'])
 
@@ -284,6 +285,32 @@ def r64(ctx, api):
                        '`%s` mutates in place; definitions of %s reaching it that are not fresh copies: %s' % (
                            text[:60], name, bad or 'none'), api.loc(st))
     ctx.floor('R6.4', 'in-place updates of argument-derived names', n, 1)
+
+
+def r66(ctx, api):
+    tp = api.func('ParquetFile.to_pandas')
+    cfg = CFG(tp)
+    arms = [s for s in iter_child_stmts(tp.body) if isinstance(s, ast.Assign) and norm(s.targets[0]) == 'columns']
+    app = [s for s in iter_child_stmts(tp.body) if isinstance(s, ast.AugAssign) and norm(s.target) == 'columns']
+    ok = len(arms) == 2 and len(app) == 1 and all(cfg.exists_path(cfg.node_of(a), cfg.node_of(app[0])) for a in arms)
+    guards = [norm(e.test) for e, fld in cfg.enclosing_tests(app[0]) if isinstance(e, ast.If)] if app else []
+    ctx.ob('R6.6', 'api.to_pandas:index-columns-added-for-explicit-and-default-column-lists', ok and guards == ['index'],
+           'the index columns must be read whether or not the caller listed columns: the append is reachable from %d of the '
+           '%d column arms and is guarded by %s' % (sum(1 for a in arms if app and cfg.exists_path(cfg.node_of(a), cfg.node_of(app[0]))),
+                                                    len(arms), guards), api.loc(app[0]) if app else api.loc(tp))
+    chk = [s for s in iter_child_stmts(tp.body) if isinstance(s, ast.Expr) and callee(s.value) == 'check_column_names']
+    ctx.ob('R6.6', 'api.to_pandas:index-resolved-before-columns-are-extended',
+           any(isinstance(s, ast.Assign) and norm(s) == 'index = self._get_index(index)' for s in tp.body) and bool(app) and bool(chk)
+           and cfg.exists_path(cfg.node_of(app[0]), cfg.node_of(chk[0])), '', api.loc(tp))
+    ss_ = api.func('ParquetFile.__setstate__')
+    cfg2 = CFG(ss_)
+    sa = [s for s in iter_child_stmts(ss_.body) if isinstance(s, ast.Expr) and norm(s.value) == 'self._set_attrs()']
+    stores = [s for s in iter_child_stmts(ss_.body) if isinstance(s, ast.Assign) and isinstance(s.targets[0], ast.Subscript)]
+    ok = len(sa) == 1 and all(not cfg2.exists_path(cfg2.node_of(sa[0]), cfg2.node_of(x)) for x in stores) and len(stores) >= 1 \
+        and not [n for n in cfg2.stmts_after(cfg2.node_of(sa[0])) if cfg2.nodes[n].stmt is not None]
+    ctx.ob('R6.6', 'api.__setstate__:handle-built-after-the-restored-metadata-is-normalised', ok,
+           '_set_attrs() (which reads the file paths to find partitions) must be the last step, after the bytes->str decoding '
+           'of file_path in the unpickled metadata', api.loc(ss_))
 
 
 def r65(ctx, api):
